@@ -32,7 +32,8 @@ def r_jobs(widths, tier, seed=1, sample=None):
         maxj = R_MAXJ[w]
         js = list(range(0, maxj + 1))
         if tier == 'quick' and sample is not None and len(js) > sample:
-            keep = {0, 1, maxj}
+            keep = {0, 1, 2, 3, 4, 5, maxj}
+            sample = max(sample, len(keep) + 2)
             rest = [j for j in js if j not in keep]
             rng.shuffle(rest)
             keep.update(rest[:max(0, sample - len(keep))])
@@ -322,12 +323,15 @@ PROPS['C10'] = {
 # ---------------------------------------------------------------- C14
 def c14_jobs(tier, seed):
     jobs = []
-    for cls in (0, 1, 2, 3):
-        for (bl, bc) in ((0, -1), (0, 0), (3, 15), (5, 16), (0, 32)):
-            jobs.append(('vh_c14_decompose', [cls, bl, bc], CUT))
+    nbs = [0, 1, 7, 8, 9, 13] if tier == 'quick' else list(range(0, 14))
+    for (bl, bc) in ((0, -1), (0, 0), (3, 15), (5, 16), (0, 32)):
+        for cls in (1, 2, 3):
+            jobs.append(('vh_c14_decompose', [cls, bl, bc, 0], CUT))
+        for nb in nbs:
+            jobs.append(('vh_c14_decompose', [0, bl, bc, nb], CUT))
     for form in (1, 2, 3, 255):
         jobs.append(('vh_c14_forms', [form], CUT))
-    ns = list(range(0, 7)) if tier == 'quick' else list(range(0, 11))
+    ns = list(range(5, -1, -1)) if tier == 'quick' else list(range(10, -1, -1))
     for n in ns:
         for region in (0, 1, 2):
             jobs.append(('vh_c14_compose', [n, region], CUT))
@@ -337,10 +341,79 @@ def c14_jobs(tier, seed):
 PROPS['C14'] = {
     'jobs': c14_jobs,
     'must_reach': ['C14:decompose', 'C14:forms', 'C14:composezero', 'C14:composeok', 'C14:composeerr'],
-    'bounds': {'quick': 'Decompose on every bit pattern (finite, Inf, NaN) with nil / short / exact / large caller buffers and the real Compose applied to its output; Compose of every coefficient byte string of length 0..6 (all bytes symbolic, leading zeros included), both signs, every int32 exponent (three regions), forms 0,1,2 and unknown forms.',
+    'bounds': {'quick': 'Decompose on Inf, NaN and finite patterns whose coefficient has 0,1,7,8,9 or 13 significant bytes (thorough: 0..13) with nil / short / exact / large caller buffers and the real Compose applied to its output; Compose of every coefficient byte string of length 0..5 (all bytes symbolic, leading zeros included), both signs, every int32 exponent (three regions), forms 0,1,2 and unknown forms.',
                'thorough': 'coefficient byte strings of length 0..10.'},
-    'outside': 'coefficients longer than 10 bytes (the 17..32-byte uint256 path and the big.Int path beyond 32 bytes are not reached by the bounded strings; the property mentions several hundred bytes)',
+    'outside': 'the Decompose->Compose round trip for coefficients of 14 or 15 significant bytes (2^104 .. 5*2^111-1): those obligations stay undecided at 120 s; coefficients longer than 10 bytes (the 17..32-byte uint256 path and the big.Int path beyond 32 bytes are not reached by the bounded strings; the property mentions several hundred bytes)',
     'assumptions': [],
     'validate_per_harness': 4,
     'job_budget': {'quick': 900, 'thorough': 6000},
+    'workers': 8,
+    'timeout': {'quick': 120, 'thorough': 300},
+}
+
+
+# ---------------------------------------------------------------- C05
+def c05_jobs(tier, seed):
+    jobs = []
+    maxl = 5 if tier == 'quick' else 7
+    for L in range(0, maxl + 1):
+        jobs.append(('vh_c05_parse', [L, 0], CUT))
+    for L in range(0, (4 if tier == 'quick' else 6) + 1):
+        jobs.append(('vh_c05_parse', [L, 1], CUT))
+        jobs.append(('vh_c05_scan', [L], CUT))
+    for L in range(0, 4):
+        jobs.append(('vh_c05_mustparse', [L]))
+    nds = [1, 19, 20, 21, 38, 39, 40, 41, 45] if tier == 'quick' else list(range(1, 49))
+    for nd in nds:
+        dots = sorted(set([-1, 0, 1, nd // 2, nd - 1]))
+        for dot in dots:
+            if dot >= nd:
+                continue
+            for suffix in (0, 1, -1):
+                jobs.append(('vh_c05_digits', [nd, dot, suffix], CUT))
+    jobs += r_jobs([128], tier, seed, sample=4)
+    return jobs
+
+
+PROPS['C05'] = {
+    'jobs': c05_jobs,
+    'must_reach': ['C05:invalid', 'C05:inf', 'C05:nan', 'C05:zero', 'C05:number', 'C05:mustparse', 'C05:long', 'C05:scannum', 'C05:scanerr', 'R:finite'],
+    'bounds': {'quick': 'Parse: every byte string of length 0..5 (all bytes symbolic); UnmarshalText and Scan (stub ScanState, ASCII, no white space): length 0..4; MustParse: length 0..3; digit-heavy literals with 1,19,20,21,38,39,40,41,45 symbolic digits, a decimal point at 5 positions and an optional 4-digit symbolic exponent of either sign (covers the 19-digit and 38/39-digit accumulator switches, the sticky flag, sub-normal and overflow thresholds); DefaultRoundingMode symbolic; rounding kernel cut (reduce128 contract checked).',
+               'thorough': 'Parse strings up to 7 bytes, UnmarshalText/Scan up to 6; digit-heavy literals for every digit count 1..48.'},
+    'outside': 'literals longer than the stated bounds (the property mentions >65k digits: the int16 counter wrap found by the design probes was repaired, but unbounded length is not proved; the one-step induction over the scanning loops planned in DESIGN.md §1.5 is not built); underscores inside digit-heavy literals; Scan through the real fmt package (a stub ScanState following the documented contract is used)',
+    'assumptions': ['fmt.ScanState replaced by a byte-buffer stub implementing ReadRune/UnreadRune/SkipSpace/Token per the interface documentation',
+                    'strconv.ErrSyntax / strconv.ErrRange / io.EOF are opaque distinct values; errors.Is modelled as identity or the error\'s own Is method',
+                    'assume-guarantee at the rounding kernel'],
+    'validate_per_harness': 3,
+}
+
+
+# ---------------------------------------------------------------- C20
+def c20_jobs(tier, seed):
+    jobs = [('vh_c20_simple', []), ('vh_c20_cmpany', []), ('vh_c15_classify', [], CUT)]
+    for fn in (0, 1, 2):
+        for (k, ov) in ((0, 0), (1, 0), (2, 1), (36, 0), (36, 36)):
+            jobs.append(('vh_c08', [fn, k, ov]))
+    jobs += [('vh_c08_special', [c]) for c in (1, 2, 3)]
+    # a totality/purity subset of the other properties' harnesses (fully symbolic regions)
+    jobs += [('vh_c12_marshal', [])] + [('vh_c12_unmarshal', [n]) for n in (0, 15, 16, 17, 64)]
+    jobs += [('vh_c19_canonical', [c]) for c in (0, 1, 2, 3)]
+    jobs += [('vh_c11_new', [r], CUT) for r in (0, 1, 2)] + [('vh_c11_ldexp', [r], CUT) for r in (0, 1, 2)] + [('vh_c11_frexp', [], CUT)]
+    jobs += [('vh_c04_far', [1]), ('vh_c04_far', [-1])] + [('vh_c04_special', [a, b]) for a in range(4) for b in range(4) if a or b]
+    jobs += [('vh_c01_far', [s, sub], CUT) for s in (1, -1) for sub in (0, 1)]
+    jobs += [('vh_c02_mul', [], CUT)]
+    jobs += [('vh_c10_from', [], CUT)] + [('vh_c10_fixed', [w, e], CUT) for w in range(4) for e in (100, 101)] + [('vh_c10_fixed_special', [w, c], CUT) for w in range(4) for c in (1, 2, 3)]
+    jobs += [('vh_c05_parse', [L, 0], CUT) for L in range(0, 4)] + [('vh_c05_mustparse', [L]) for L in range(0, 3)]
+    jobs += [('vh_c14_forms', [f], CUT) for f in (1, 2, 3, 255)] + [('vh_c14_compose', [n, r], CUT) for n in (0, 1, 2) for r in (0, 1, 2)]
+    jobs += r_jobs([64, 128], tier, seed, sample=4)
+    return jobs
+
+
+PROPS['C20'] = {
+    'jobs': c20_jobs,
+    'must_reach': ['C20:simple', 'C20:cmpany', 'C15:classify'],
+    'bounds': {'all': 'Totality (no panic other than the documented ones, no out-of-range index, nil dereference, loop bound 600/7000 never exceeded) and purity (no store to any package variable by library code) for: Abs, Neg, IsNaN, IsInf, IsZero, Signbit, Sign, Payload, Payload.String, RoundingMode.String, Inf, NaN, Canonical, Compare, Equal, Cmp, CmpAbs, Min, Max, Round/Ceil/Floor (the regions k in {0,1,2,>=36} of C08 with dp over all of int64), Frexp, New, Ldexp, MarshalBinary, UnmarshalBinary (lengths 0..64), FromInt64/32/Uint64/32, Int64/Int32/Uint64/Uint32 (far exponent regions and specials), Add/Sub in the far-gap regions, Mul, Parse/MustParse (strings up to 3 bytes), Compose (forms, coefficients up to 2 bytes), reduce64/reduce128/round; all arguments symbolic inside the stated regions.'},
+    'outside': 'Exp/Exp2/Exp10/Expm1/Log*/Sqrt/Cbrt/Pow numeric paths, Quo/QuoRem digit loops, Format/Append/String/MarshalText/MarshalJSON, Scan through the real fmt package, Float/Float32/Float64/FromFloat*, FromRat, Add/Sub for gaps below 75 other than those checked under C01, strings and byte slices longer than the stated bounds, precisions/widths; interleavings of concurrent calls are NOT explored: data-race freedom is argued from the absence of writes to shared state (every store target is resolved to a concrete object during symbolic execution and a store to a package variable by library code fails the check)',
+    'assumptions': ['determinism: the executor is a deterministic interpreter of the SSA; results depend only on the arguments and DefaultRoundingMode (the only package variable read that the harnesses make symbolic)'],
+    'validate_per_harness': 2,
 }
